@@ -38,4 +38,331 @@ theorem lrun_header (env : Env) (st : List Byte) (hlen : st.length = 512) (hs : 
     refine (lrun_ins_next (step_mov64 env _ 9 0 0 0 _ stateW (by omega) rfl)).trans ?_
     rw [lrun_label]
 
+/-! ### Footer -/
+
+theorem toLE_length (v n : Nat) : (toLE v n).length = n := by
+  induction n generalizing v with
+  | zero => rfl
+  | succ n ih => simp [toLE, ih]
+
+theorem getBytes_writeAt_same {α : Type} (l : List α) (off : Nat) (bs : List α) (h : off + bs.length ≤ l.length) :
+    getBytes (writeAt l off bs) off bs.length = some bs := by
+  unfold getBytes writeAt
+  have hlen : (l.take off ++ bs ++ l.drop (off + bs.length)).length = l.length := by
+    simp only [List.length_append, List.length_take, List.length_drop]; omega
+  rw [if_pos (by rw [hlen]; exact h)]
+  congr 1
+  have h1 : (l.take off).length = off := by simp [List.length_take]; omega
+  rw [List.append_assoc, List.drop_left' h1, List.take_left' rfl]
+
+theorem leNat_toLE4 (x : Nat) : leNat (toLE x 4) = x % 4294967296 := by
+  simp only [toLE, leNat, BitVec.toNat_ofNat]; omega
+
+theorem rc_after_store (st : List Byte) (x : Nat) (hlen : st.length = 512) :
+    (getBytes (writeAt st 92 (toLE x 4)) 92 4).map leNat = some (x % 4294967296) := by
+  have := getBytes_writeAt_same st 92 (toLE x 4) (by rw [toLE_length]; omega)
+  rw [toLE_length] at this
+  rw [this, Option.map_some, leNat_toLE4]
+
+theorem writeAt_length {α : Type} (l : List α) (off : Nat) (bs : List α) (h : off + bs.length ≤ l.length) :
+    (writeAt l off bs).length = l.length := by
+  unfold writeAt
+  simp only [List.length_append, List.length_take, List.length_drop]; omega
+
+/-- "Store the verdict, tail-call through the static jump map" (both footer blocks). -/
+def verdictBlock (c : Cfg) (v : Int) (jmp : Int) (cb : Int) : List Ev :=
+  [movImm32 R1 v, store32 R9 R1 stateOffPolResult, mov64 R1 R6] ++ loadMapFD R2 c.staticJumpMapFD ++
+  [if c.useJmps then movImm32 R3 jmp else load32 R3 R6 cb, call helperTailCall]
+
+/-- The jump index the block uses. -/
+def blockIdx (env : Env) (jmp : Int) (cb0 : Bool) : Word :=
+  if env.c.useJmps then ((sext32 jmp).setWidth 32).setWidth 64
+  else (if cb0 then env.cb0 else env.cb1).setWidth 64
+
+def vWord (v : Int) : Word := ((sext32 v).setWidth 32).setWidth 64
+
+theorem lrun_verdictBlock (env : Env) (m : Mach) (v jmp : Int) (cb0 : Bool) (rest : List Ev)
+    (h6 : m.reg 6 = some ctxW) (h9 : m.reg 9 = some stateW) (hl : m.regs.length = 11) :
+    ∃ m2 : Mach, m2.st = writeAt m.st 92 (toLE (vWord v).toNat 4) ∧ m2.reg 9 = some stateW ∧ m2.regs.length = 11 ∧
+      lrun env (verdictBlock env.c v jmp (if cb0 then skbCb0 else skbCb1) ++ rest) m =
+        if env.tailOK then
+          Outcome.tail env.c.staticJumpMapFD (((blockIdx env jmp cb0).setWidth 32).setWidth 64)
+            (((({ (m.setReg 1 (vWord v)) with st := writeAt m.st 92 (toLE (vWord v).toNat 4) } : Mach).setReg 1 ctxW).setReg 2
+              (mapHandle env.c.staticJumpMapFD)).setReg 3 (blockIdx env jmp cb0))
+        else lrun env rest m2 := by
+  have r1 : (m.setReg 1 (vWord v)).reg 1 = some (vWord v) := reg_setReg_eq (by omega)
+  have r9 : (m.setReg 1 (vWord v)).reg 9 = some stateW := by rw [reg_setReg_ne (by omega)]; exact h9
+  have e2 := fun nxt => step_stx32_state (env := env) r9 1 92 0 nxt (vWord v) (by omega) r1
+  -- machine after the store and the three register moves
+  have hm5 : ∀ M : Mach, M = ((({ (m.setReg 1 (vWord v)) with st := writeAt m.st 92 (toLE (vWord v).toNat 4) } : Mach).setReg 1 ctxW).setReg 2
+      (mapHandle env.c.staticJumpMapFD)).setReg 3 (blockIdx env jmp cb0) →
+      M.reg 1 = some ctxW ∧ M.reg 2 = some (mapHandle env.c.staticJumpMapFD) ∧ M.reg 3 = some (blockIdx env jmp cb0) ∧
+      M.reg 9 = some stateW ∧ M.regs.length = 11 := by
+    intro M hM
+    subst hM
+    have l1 : (m.setReg 1 (vWord v)).regs.length = 11 := by simp [Mach.setReg, hl]
+    refine ⟨?_, ?_, ?_, ?_, ?_⟩
+    · rw [reg_setReg_ne (by omega), reg_setReg_ne (by omega)]
+      exact reg_setReg_eq (by simp [Mach.setReg, hl])
+    · rw [reg_setReg_ne (by omega)]
+      exact reg_setReg_eq (by simp [Mach.setReg, hl])
+    · exact reg_setReg_eq (by simp [Mach.setReg, hl])
+    · rw [reg_setReg_ne (by omega), reg_setReg_ne (by omega), reg_setReg_ne (by omega)]
+      exact r9
+    · simp [Mach.setReg, hl]
+  obtain ⟨q1, q2, q3, q9, ql⟩ := hm5 _ rfl
+  have et := fun nxt => step_tail_static env _ (blockIdx env jmp cb0) nxt q1 q2 q3
+  refine ⟨(((((({ (m.setReg 1 (vWord v)) with st := writeAt m.st 92 (toLE (vWord v).toNat 4) } : Mach).setReg 1 ctxW).setReg 2
+      (mapHandle env.c.staticJumpMapFD)).setReg 3 (blockIdx env jmp cb0)).clobber).setReg 0 (BitVec.ofInt 64 (-2))),
+    rfl, ?_, ?_, ?_⟩
+  · rw [reg_setReg_ne (by omega), reg_clobber _ 9 (Or.inr (by omega))]; exact q9
+  · simp [Mach.setReg, Mach.clobber, hl]
+  · have h6' : (({ (m.setReg 1 (vWord v)) with st := writeAt m.st 92 (toLE (vWord v).toNat 4) } : Mach)).reg 6 = some ctxW := by
+      show (m.setReg 1 (vWord v)).reg 6 = some ctxW
+      rw [reg_setReg_ne (by omega)]; exact h6
+    have h6'' : ((({ (m.setReg 1 (vWord v)) with st := writeAt m.st 92 (toLE (vWord v).toNat 4) } : Mach).setReg 1 ctxW).setReg 2
+        (mapHandle env.c.staticJumpMapFD)).reg 6 = some ctxW := by
+      rw [reg_setReg_ne (by omega), reg_setReg_ne (by omega)]; exact h6'
+    simp only [verdictBlock, movImm32, store32, mov64, call, mk, R1, R2, R3, R6, R9, stateOffPolResult, stateEventHdrSize,
+      List.cons_append, List.nil_append, List.append_assoc]
+    refine (lrun_ins_next (step_movImm32 env m 1 0 v _ (by omega))).trans ?_
+    refine (lrun_ins_next (e2 _)).trans ?_
+    refine (lrun_ins_next (step_mov64 env _ 1 6 0 0 _ ctxW (by omega) h6')).trans ?_
+    refine (lrun_loadMapFD env _ 2 _ _ (by omega)).trans ?_
+    have hidx : lrun env (((if env.c.useJmps = true then Ev.ins ⟨opMovImm32, 3, 0, 0, jmp⟩
+          else load32 3 6 (if cb0 = true then skbCb0 else skbCb1)) ::
+        Ev.ins ⟨opCall, 0, 0, 0, helperTailCall⟩ :: rest))
+        ((({ (m.setReg 1 (vWord v)) with st := writeAt m.st 92 (toLE (vWord v).toNat 4) } : Mach).setReg 1 ctxW).setReg 2
+          (mapHandle env.c.staticJumpMapFD)) =
+        lrun env (Ev.ins ⟨opCall, 0, 0, 0, helperTailCall⟩ :: rest)
+          (((({ (m.setReg 1 (vWord v)) with st := writeAt m.st 92 (toLE (vWord v).toNat 4) } : Mach).setReg 1 ctxW).setReg 2
+          (mapHandle env.c.staticJumpMapFD)).setReg 3 (blockIdx env jmp cb0)) := by
+      unfold blockIdx
+      by_cases hu : env.c.useJmps = true
+      · simp only [hu, if_true]
+        exact lrun_ins_next (step_movImm32 env _ 3 0 jmp _ (by omega))
+      · simp only [hu, Bool.false_eq_true, if_false, load32, mk]
+        cases cb0 with
+        | true =>
+          simp only [if_true, skbCb0]
+          exact lrun_ins_next (step_ld_cb (env := env) h6'' 3 48 0 _ (by omega) (Or.inl rfl))
+        | false =>
+          simp only [Bool.false_eq_true, if_false, skbCb1]
+          exact lrun_ins_next (step_ld_cb (env := env) h6'' 3 52 0 _ (by omega) (Or.inr rfl))
+    refine hidx.trans ?_
+    by_cases ht : env.tailOK = true
+    · simp only [ht, if_true]
+      have := et (nextIns rest)
+      rw [ht] at this
+      exact lrun_ins_tail this
+    · have ht' : env.tailOK = false := by simpa using ht
+      simp only [ht', Bool.false_eq_true, if_false]
+      have := et (nextIns rest)
+      rw [ht'] at this
+      exact lrun_ins_next this
+
+theorem footerEvs_eq (c : Cfg) (xdp : Bool) :
+    footerEvs c xdp = .label .deny :: (verdictBlock c policyDeny c.denyJmp skbCb1 ++
+      (exitTargetEvs xdp ++ ((if xdp then [.label .xdpPass, movImm64 R0 2, exitI] else []) ++
+        (.label .allow :: (verdictBlock c policyAllow c.allowJmp skbCb0 ++
+          [movImm32 R1 policyTailCallFailed, store32 R9 R1 stateOffPolResult, movImm64 R0 (if xdp then 1 else 2), exitI]))))) := by
+  simp [footerEvs, verdictBlock]
+
+theorem idx_jmp (j : Int) :
+    ((((((sext32 j).setWidth 32).setWidth 64 : Word).setWidth 32).setWidth 64 : Word)).toNat = (BitVec.ofInt 32 j).toNat := by
+  unfold sext32
+  simp only [BitVec.toNat_setWidth, BitVec.toNat_ofInt]
+  omega
+
+theorem idx_cb (cb : BitVec 32) : ((((cb.setWidth 64 : Word).setWidth 32).setWidth 64 : Word)).toNat = cb.toNat := by
+  have := cb.isLt
+  simp only [BitVec.toNat_setWidth]
+  omega
+
+/-- Continuing at `exit`-style code: set R0, exit. -/
+theorem lrun_set_exit (env : Env) (m : Mach) (x : Int) (r : List Ev) (hl : m.regs.length = 11) :
+    lrun env (movImm64 R0 x :: exitI :: r) m = .exit (sext32 x) (m.setReg 0 (sext32 x)) := by
+  unfold movImm64 mk R0
+  refine (lrun_ins_next (step_movImm64 env m 0 0 x _ (by omega))).trans ?_
+  exact lrun_exit (reg_setReg_eq (by omega))
+
+theorem blockIdx_toNat (env : Env) (j : Int) (cb0 : Bool) :
+    (((blockIdx env j cb0).setWidth 32).setWidth 64).toNat =
+      if env.c.useJmps then (BitVec.ofInt 32 j).toNat else (if cb0 then env.cb0 else env.cb1).toNat := by
+  unfold blockIdx
+  by_cases hu : env.c.useJmps = true
+  · simp only [hu, if_true]; exact idx_jmp j
+  · simp only [hu, Bool.false_eq_true, if_false]; exact idx_cb _
+
+theorem st_setReg (m : Mach) (r : Nat) (v : Word) : (m.setReg r v).st = m.st := rfl
+
+theorem footer_deny (env : Env) (st : List Byte) (m : Mach) (xdp : Bool) (hI : Inv st m) :
+    ∃ o, (goto env .deny (footerEvs env.c xdp) m).obs = some o ∧ (expectedObs env xdp .deny).agrees o = true := by
+  rw [footerEvs_eq, goto_label_self]
+  obtain ⟨m2, hst, _, hl2, hrun⟩ := lrun_verdictBlock env m policyDeny env.c.denyJmp false
+    (exitTargetEvs xdp ++ ((if xdp then [.label .xdpPass, movImm64 R0 2, exitI] else []) ++
+        (.label .allow :: (verdictBlock env.c policyAllow env.c.allowJmp skbCb0 ++
+          [movImm32 R1 policyTailCallFailed, store32 R9 R1 stateOffPolResult, movImm64 R0 (if xdp then 1 else 2), exitI]))))
+    hI.r6 hI.r9 hI.regsLen
+  simp only [Bool.false_eq_true, if_false] at hrun
+  have hrc : (getBytes (writeAt m.st 92 (toLE (vWord policyDeny).toNat 4)) 92 4).map leNat = some 2 := by
+    rw [rc_after_store m.st _ (by rw [hI.stEq]; exact hI.stLen)]
+    rfl
+  by_cases ht : env.tailOK = true
+  · rw [ht] at hrun
+    simp only [if_true] at hrun
+    rw [hrun]
+    refine ⟨_, rfl, ?_⟩
+    simp only [Outcome.obs, expectedObs, ht, if_true, Obs.agrees, st_setReg, hrc, blockIdx_toNat]
+    simp
+  · have ht' : env.tailOK = false := by simpa using ht
+    rw [ht'] at hrun
+    simp only [Bool.false_eq_true, if_false] at hrun
+    rw [hrun]
+    simp only [exitTargetEvs, List.cons_append, List.nil_append]
+    rw [lrun_label, lrun_set_exit env m2 _ _ hl2]
+    refine ⟨_, rfl, ?_⟩
+    simp only [Outcome.obs, expectedObs, ht', Bool.false_eq_true, if_false, Obs.agrees, st_setReg, hst, hrc]
+    cases xdp <;> simp [sext32]
+
+theorem labelsOf_verdictBlock (c : Cfg) (v jmp cb : Int) : labelsOf (verdictBlock c v jmp cb) = [] := by
+  unfold verdictBlock
+  by_cases hu : c.useJmps = true <;>
+    simp [hu, labelsOf, loadMapFD, movImm32, store32, mov64, load32, call, mk]
+
+theorem goto_allow_footer (env : Env) (xdp : Bool) (m : Mach) :
+    goto env .allow (footerEvs env.c xdp) m =
+      lrun env (verdictBlock env.c policyAllow env.c.allowJmp skbCb0 ++
+        [movImm32 R1 policyTailCallFailed, store32 R9 R1 stateOffPolResult, movImm64 R0 (if xdp then 1 else 2), exitI]) m := by
+  rw [footerEvs_eq, goto_cons_label_ne env _ m (by simp),
+    goto_append _ m (by rw [labelsOf_verdictBlock]; simp),
+    goto_append _ m (by simp [exitTargetEvs, labelsOf, movImm64, exitI, mk]),
+    goto_append _ m (by cases xdp <;> simp [labelsOf, movImm64, exitI, mk]),
+    goto_label_self]
+
+theorem footer_allow (env : Env) (st : List Byte) (m : Mach) (xdp : Bool) (hI : Inv st m) :
+    ∃ o, (goto env .allow (footerEvs env.c xdp) m).obs = some o ∧ (expectedObs env xdp .allow).agrees o = true := by
+  rw [goto_allow_footer]
+  obtain ⟨m2, hst, h9, hl2, hrun⟩ := lrun_verdictBlock env m policyAllow env.c.allowJmp true
+    [movImm32 R1 policyTailCallFailed, store32 R9 R1 stateOffPolResult, movImm64 R0 (if xdp then 1 else 2), exitI]
+    hI.r6 hI.r9 hI.regsLen
+  simp only [if_true] at hrun
+  have hlen : m.st.length = 512 := by rw [hI.stEq]; exact hI.stLen
+  have hrc : (getBytes (writeAt m.st 92 (toLE (vWord policyAllow).toNat 4)) 92 4).map leNat = some 1 := by
+    rw [rc_after_store m.st _ hlen]
+    rfl
+  by_cases ht : env.tailOK = true
+  · rw [ht] at hrun
+    simp only [if_true] at hrun
+    rw [hrun]
+    refine ⟨_, rfl, ?_⟩
+    simp only [Outcome.obs, expectedObs, ht, if_true, Obs.agrees, st_setReg, hrc, blockIdx_toNat]
+    simp
+  · have ht' : env.tailOK = false := by simpa using ht
+    rw [ht'] at hrun
+    simp only [Bool.false_eq_true, if_false] at hrun
+    rw [hrun]
+    -- tail call failed: record PolicyTailCallFailed and drop
+    have r1 : (m2.setReg 1 (vWord policyTailCallFailed)).reg 1 = some (vWord policyTailCallFailed) :=
+      reg_setReg_eq (by omega)
+    have r9 : (m2.setReg 1 (vWord policyTailCallFailed)).reg 9 = some stateW := by
+      rw [reg_setReg_ne (by omega)]; exact h9
+    have hfin : lrun env [movImm32 R1 policyTailCallFailed, store32 R9 R1 stateOffPolResult,
+        movImm64 R0 (if xdp then 1 else 2), exitI] m2 =
+        .exit (sext32 (if xdp then 1 else 2))
+          (({ (m2.setReg 1 (vWord policyTailCallFailed)) with
+            st := writeAt m2.st 92 (toLE (vWord policyTailCallFailed).toNat 4) } : Mach).setReg 0
+              (sext32 (if xdp then 1 else 2))) := by
+      simp only [movImm32, store32, mk, R1, R9, stateOffPolResult, stateEventHdrSize]
+      refine (lrun_ins_next (step_movImm32 env m2 1 0 _ _ (by omega))).trans ?_
+      refine (lrun_ins_next (step_stx32_state (env := env) r9 1 92 0 _ _ (by omega) r1)).trans ?_
+      exact lrun_set_exit env _ _ _ (by simp [Mach.setReg, hl2])
+    rw [hfin]
+    refine ⟨_, rfl, ?_⟩
+    have hrc2 : (getBytes (writeAt m2.st 92 (toLE (vWord policyTailCallFailed).toNat 4)) 92 4).map leNat = some 10 := by
+      rw [rc_after_store m2.st _ (by rw [hst, writeAt_length _ _ _ (by rw [toLE_length]; omega)]; exact hlen)]
+      rfl
+    simp only [Outcome.obs, expectedObs, ht', Bool.false_eq_true, if_false, Obs.agrees, st_setReg, hrc2]
+    cases xdp <;> simp [sext32]
+
+theorem footer_xdp (env : Env) (st : List Byte) (m : Mach) (hI : Inv st m) :
+    ∃ o, (goto env .xdpPass (footerEvs env.c true) m).obs = some o ∧ (expectedObs env true .xdpPass).agrees o = true := by
+  rw [footerEvs_eq, goto_cons_label_ne env _ m (by simp),
+    goto_append _ m (by rw [labelsOf_verdictBlock]; simp),
+    goto_append _ m (by simp [exitTargetEvs, labelsOf, movImm64, exitI, mk])]
+  simp only [if_true, List.cons_append, List.nil_append]
+  rw [goto_label_self, lrun_set_exit env m 2 _ hI.regsLen]
+  refine ⟨_, rfl, ?_⟩
+  simp [Outcome.obs, expectedObs, Obs.agrees, sext32]
+
+/-! ### Whole program -/
+
+theorem hostTarget_verdict (env : Env) (r : Rules) (p : Pkt) :
+    (hostTarget env r p).or (some (vlabel (workloadVerdict env r p))) = some (vlabel (verdict env r p)) := by
+  unfold hostTarget verdict
+  cases r.forXDP <;> cases r.suppressNormalHostPolicy <;> simp only [Bool.false_eq_true, if_false, if_true]
+  all_goals (
+    try (cases evalTiers env p .destPreNAT r.hostNormalTiers <;> simp [vlabel]))
+  all_goals (
+    cases evalTiers env p .destPreNAT r.hostPreDnatTiers <;> simp [vlabel] <;>
+    cases toOrFromHost p <;> simp [vlabel] <;>
+    (try (cases evalTiers env p .dest r.hostForwardTiers <;> simp [vlabel])) <;>
+    (try (cases evalTiers env p .dest r.hostNormalTiers <;> simp [vlabel])) <;>
+    (try (cases evalProfiles true env p r.hostProfiles <;> simp [vlabel])))
+
+theorem hostTarget_notBody (env : Env) (r : Rules) (p : Pkt) (l : Label) (h : hostTarget env r p = some l) :
+    l.isBody = false := by
+  unfold hostTarget at h
+  repeat' split at h
+  all_goals first | (cases h; rfl) | cases h
+
+theorem decides_body (env : Env) (st : List Byte) (r : Rules) (hok : ProgOK env st r) (rid tid : Nat) :
+    Decides env st (flat (hostPart env.c r).1 ++ flat (workloadPart env.c r rid tid))
+      (some (vlabel (verdict env r (pktOfD st)))) := by
+  obtain ⟨dH, _⟩ := decides_host env st r hok
+  obtain ⟨dW, lW⟩ := decides_workload env st r hok rid tid
+  have := Decides.seq dH dW (fun l hl => not_mem_of_body lW (hostTarget_notBody env r _ l hl))
+  exact this.congr (hostTarget_verdict env r (pktOfD st))
+
+theorem flat_compile (c : Cfg) (r : Rules) :
+    flat (compile c r) = headerEvs c ++ ((flat (hostPart c r).1 ++
+      flat (workloadPart c r (hostPart c r).2.1 (hostPart c r).2.2)) ++ footerEvs c r.forXDP) := by
+  unfold compile
+  cases hostPart c r with
+  | mk h rt => cases rt with
+    | mk a b => simp [flat_append, flat_map_ev]
+
+theorem verdict_xdpPass (env : Env) (r : Rules) (p : Pkt) (h : verdict env r p = .xdpPass) : r.forXDP = true := by
+  by_cases hx : r.forXDP = true
+  · exact hx
+  · exfalso
+    have hx' : r.forXDP = false := by simpa using hx
+    have hw : workloadVerdict env r p ≠ .xdpPass := by
+      unfold workloadVerdict
+      repeat' split
+      all_goals simp
+    unfold verdict at h
+    simp only [hx', Bool.false_eq_true, if_false] at h
+    repeat' split at h
+    all_goals first | exact hw h | cases h
+
+/-- **Label-level whole-program theorem** (IPv4, unsplit, state lookup succeeds). -/
+theorem lrun_program (env : Env) (st : List Byte) (r : Rules) (hok : ProgOK env st r) (hs : env.stateOK = true) :
+    ∃ o, (lrun env (flat (compile env.c r)) (Mach.init st)).obs = some o ∧
+      (expectedObs env r.forXDP (verdict env r (pktOfD st))).agrees o = true := by
+  rw [flat_compile]
+  obtain ⟨m0, hI0, e0⟩ := lrun_header env st hok.ctx.len hs
+    ((flat (hostPart env.c r).1 ++ flat (workloadPart env.c r (hostPart env.c r).2.1 (hostPart env.c r).2.2)) ++
+      footerEvs env.c r.forXDP)
+  rw [e0]
+  obtain ⟨m1, hI1, e1⟩ := decides_body env st r hok _ _ (footerEvs env.c r.forXDP) m0 hI0
+  rw [e1]
+  cases hv : verdict env r (pktOfD st) with
+  | allow => exact footer_allow env st m1 r.forXDP hI1
+  | deny => exact footer_deny env st m1 r.forXDP hI1
+  | xdpPass =>
+    have hx := verdict_xdpPass env r _ hv
+    rw [hx]
+    exact footer_xdp env st m1 hI1
+
 end CalicoVerif.C11
